@@ -69,6 +69,12 @@ def locations(level):
     L.append(("ADD", ("k32", (KECCAK1[1] - 1) % 2**256), X))
     if full:
         L.append(("ADD", ("k32", (KECCAK2[(1, 1)] - 1) % 2**256), K1))
+    # a mapping inside a two-dimensional array: m-slot = keccak(k . (keccak(2) + x + y)): the hashed base is a sum of three terms
+    # (mapping(uint => uint)[3][] at slot 2: element [i][j] lives at keccak(2) + 3*i + j)
+    L.append(("keccak2", K1, ("ADD", ("ADD", ("keccak1", K2), ("MUL", ("k", 3), X)), Y)))
+    L.append(("keccak2", K1, ("ADD", ("ADD", ("keccak1", K2), ("MUL", ("k", 3), Y)), X)))
+    if full:
+        L.append(("keccak2", K1, ("ADD", ("keccak1", K2), ("ADD", X, Y))))
     # mapping with a 96-byte key (bytes/string keys): 128-byte preimage, hashed from concrete and from symbolic data
     L.append(("keccak4", K1, K2, X, K1))
     L.append(("keccak4", K1, K2, K1, K1))
